@@ -81,9 +81,12 @@ def dec2dms(x):
     else:
         sign = '+'
     x = abs(x)
-    d = int(math.floor(x))
-    m = int(math.floor((x - d) * 60))
-    s = float(((x - d) * 60 - m) * 60)
+    # round to the printed precision (0.01") *before* splitting into fields
+    # so that seconds never print as 60.00
+    total = int(round(x * 360000))
+    d, rem = divmod(total, 360000)
+    m, rem = divmod(rem, 6000)
+    s = rem / 100.0
     return '{0}{1:02d}:{2:02d}:{3:05.2f}'.format(sign, d, m, s)
 
 
@@ -108,10 +111,12 @@ def dec2hms(x):
     if x < 0:
         x += 360
     x /= 15.0
-    h = int(x)
-    x = (x - h) * 60
-    m = int(x)
-    s = (x - m) * 60
+    # round to the printed precision (0.01s) *before* splitting into fields
+    # so that seconds never print as 60.00 (and 24h wraps to 0h)
+    total = int(round(x * 360000)) % (24 * 360000)
+    h, rem = divmod(total, 360000)
+    m, rem = divmod(rem, 6000)
+    s = rem / 100.0
     return '{0:02d}:{1:02d}:{2:05.2f}'.format(h, m, s)
 
 
